@@ -65,9 +65,12 @@ TrReset == /\ Is("reset")
 
 TrConnect == /\ Is("connect") /\ Connect /\ Done
 
-(* an accepted EHLO lists STARTTLS exactly while it can be used *)
+(* an accepted EHLO that lists the server's extensions (a multi-line reply; a later EHLO is answered *)
+(* with a plain "session reset") lists STARTTLS exactly while it can be used; no reply ever names it  *)
+(* when it cannot                                                                                    *)
 TrHello == /\ Cmd("helo") /\ Hello(Ev.verb, Ev.arg)
-           /\ (Has("adv") /\ Ev.verb = "EHLO" /\ reply'.cls = "ok") => (Ev.adv = Advertised)
+           /\ (Has("adv") /\ Ev.adv) => Advertised
+           /\ (Has("adv") /\ Ev.verb = "EHLO" /\ reply'.cls = "ok" /\ Ev.lines > 1) => (Ev.adv = Advertised)
            /\ Done
 (* STARTTLS: when the contract accepts it the driver negotiated TLS (Ev.upgraded) and the rest of the *)
 (* dialogue runs encrypted                                                                           *)
